@@ -65,6 +65,18 @@ func runC12(c *mon.Case) {
 		sc.SizesB = eng.RandSizes(r, cnt, false)
 		sc.GapsA = eng.RandGaps(r, cnt, 3*time.Second)
 		sc.GapsB = eng.RandGaps(r, cnt, 3*time.Second)
+		// slow or stalled consumers: the application stops calling Recv,
+		// so the N-slot receive buffer fills up behind it
+		switch r.Intn(4) {
+		case 0:
+			sc.RecvGapsA = eng.RandGaps(r, cnt, 8*time.Second)
+			sc.RecvGapsB = eng.RandGaps(r, cnt, 8*time.Second)
+		case 1:
+			sc.RecvGapsA = make([]time.Duration, cnt)
+			sc.RecvGapsB = make([]time.Duration, cnt)
+			sc.RecvGapsA[r.Intn(cnt)] = time.Hour
+			sc.RecvGapsB[r.Intn(cnt)] = time.Hour
+		}
 		sc.FaultC2S = eng.FaultSpec{Drop: 0.1, Dup: 0.05, Until: 30 * time.Second, Seed: r.Int63()}
 		sc.FaultS2C = eng.FaultSpec{Drop: 0.1, Dup: 0.05, Until: 30 * time.Second, Seed: r.Int63()}
 		if r.Intn(3) == 0 {
@@ -195,22 +207,28 @@ func runC12Variant(c *mon.Case, sc *eng.Scen, cv closeVariant) {
 				mu.Unlock()
 			}(i, g)
 		}
-		wg.Wait()
-		// Every application goroutine that was inside (or about to enter)
-		// a call on a closed endpoint must have come back once the
-		// bubble has settled. Flow a: sender on C, receiver on S; flow b:
-		// sender on S, receiver on C. A sender may be asleep in an idle
-		// gap, so give it the longest gap first.
-		time.Sleep(3*time.Second + time.Millisecond)
+		closed := make(chan struct{})
+		go func() { wg.Wait(); close(closed) }()
+		select {
+		case <-closed:
+		case <-time.After(time.Hour):
+			c.Shard.Violate("close-hangs",
+				fmt.Sprintf("Close (%+v) had not returned after one hour of virtual time", cv), rep(nil))
+			mon.FlushAndExit(c.Shard)
+		}
+		// No application goroutine may still be inside a call on a closed
+		// endpoint once the bubble has settled. Flow a: sender on C,
+		// receiver on S; flow b: sender on S, receiver on C.
+		time.Sleep(time.Millisecond)
 		synctest.Wait()
 		for _, nm := range names {
-			sd, rd := a.SenderDone.Load(), b.ReceiverDone.Load()
+			is, ir := a.InSend.Load(), b.InRecv.Load()
 			if nm == "S" {
-				sd, rd = b.SenderDone.Load(), a.ReceiverDone.Load()
+				is, ir = b.InSend.Load(), a.InRecv.Load()
 			}
-			if !sd || !rd {
+			if is || ir {
 				c.Shard.Violate("blocked-caller-not-woken",
-					fmt.Sprintf("3s after Close on %s returned: its Send caller returned=%v, its Recv caller returned=%v", nm, sd, rd), rep(nil))
+					fmt.Sprintf("Close on %s has returned and the bubble has settled, but an application goroutine is still inside Send=%v / Recv=%v on that endpoint", nm, is, ir), rep(nil))
 			}
 		}
 		// A further Close must be a no-op that returns at once.
